@@ -74,6 +74,8 @@ impl WorkerState {
     pub(crate) fn remaining_time(&self) -> Option<Duration> {
         if let Some(limit) = self.configuration.time_limit {
             let life_time = Instant::now() - self.start_time;
+            #[cfg(feature = "verif")]
+            let life_time = life_time + crate::verif::clock::offset();
             Some(limit - life_time)
         } else {
             None
